@@ -55,7 +55,68 @@ func init() {
 // C19: long operation histories over a population of live tensors; every live tensor is dumped
 // after every step and compared with the (value-semantics) model; caller-owned slices are re-checked
 // after every step (field argmut) and occasionally overwritten by the caller (scribble).
+// genC19Products: directed histories around the products, which transpose temporaries and - for a vector times a
+// matrix - the caller's own matrix for the duration of the call: operands with a pending lazy transpose, then pool
+// activity (new tensors, reshapes: borrowed metadata slices), then the undo of the pending transpose; every tensor is
+// dumped at the end (and the pool-event trace is judged by the ownership machine).
+func genC19Products(g *gen) {
+	for _, dt := range []string{"f64", "f32", "c128"} {
+		for _, pool := range []string{"pool on", "pool off"} {
+			for _, op := range []string{"dot", "mv", "mm", "outer", "inner"} {
+				for _, tr := range []int{0, 1, 2} { // which operands carry a pending transpose
+					a, b := "3,4", "4,3"
+					cmd := fmt.Sprintf("la %s fn $0 $1", op)
+					switch op {
+					case "dot":
+						a, b = "4", "3,4" // vector x (matrix transposed to 4,3)
+						if tr == 0 {
+							b = "4,3"
+						}
+					case "mv":
+						a, b = "4,3", "4"
+						if tr == 0 {
+							a = "3,4"
+						}
+					case "mm":
+						a, b = "3,4", "3,4"
+						if tr == 0 {
+							b = "4,3"
+						}
+					case "outer", "inner":
+						a, b = "4", "4"
+					}
+					steps := []string{"vset=2", pool, fmt.Sprintf("new %s %s C", dt, a), fmt.Sprintf("new %s %s C", dt, b)}
+					if tr >= 1 {
+						switch op {
+						case "dot", "mm":
+							steps = append(steps, "T $1 1,0")
+						case "mv":
+							steps = append(steps, "T $0 1,0")
+						}
+					}
+					if tr == 2 && op == "mm" {
+						steps = append(steps, "T $0 1,0", "T $1 1,0") // a: (4,3); b back to (3,4) by the undo
+					}
+					steps = append(steps, cmd)
+					nv := 2
+					if op != "inner" {
+						nv++
+					}
+					// pool activity after the call, then the undo
+					steps = append(steps, fmt.Sprintf("new %s 4,5 C", dt), fmt.Sprintf("reshape $%d 5,4", nv), fmt.Sprintf("new %s 2,2 C", dt),
+						fmt.Sprintf("new %s 2,3,2 C", dt), "UT $1", "UT $0", fmt.Sprintf("slice $%d 0:2,0:2", nv), "gc")
+					for v := 0; v < nv+4; v++ {
+						steps = append(steps, fmt.Sprintf("dump $%d", v))
+					}
+					g.emit(steps...)
+				}
+			}
+		}
+	}
+}
+
 func genC19(g *gen) {
+	genC19Products(g)
 	nprog := 400
 	maxLen := 40
 	if g.thorough() {
@@ -94,7 +155,33 @@ func genC19(g *gen) {
 			}
 			ti := g.r.intn(len(live))
 			t := live[ti]
-			switch g.r.intn(19) {
+			switch g.r.intn(20) {
+			case 19:
+				// products (float types): they permute / transpose temporaries and, for a vector times a matrix, the
+				// caller's matrix itself for the duration of the call
+				if (dt == "f64" || dt == "f32" || dt == "c128") && t.shape != nil {
+					o := live[g.r.intn(len(live))]
+					if o.shape == nil {
+						break
+					}
+					op := ""
+					switch {
+					case len(t.shape) == 1 && len(o.shape) == 2 && t.shape[0] == o.shape[0]:
+						op = "dot"
+					case len(t.shape) == 2 && len(o.shape) == 2 && t.shape[1] == o.shape[0]:
+						op = g.r.pick([]string{"mm", "dot"})
+					case len(t.shape) == 2 && len(o.shape) == 1 && t.shape[1] == o.shape[0]:
+						op = g.r.pick([]string{"mv", "dot"})
+					case len(t.shape) == 1 && len(o.shape) == 1:
+						op = "outer"
+					}
+					if op != "" {
+						// (no destination option here: a destination sharing storage with an operand is outside what BLAS
+						// defines; the option modes of the products are C09's matrix)
+						steps = append(steps, fmt.Sprintf("la %s fn $%d $%d", op, t.v, o.v))
+						nv++
+					}
+				}
 			case 18:
 				// a multi-iterator over two or three live tensors (equal shapes, vector shapes of different classes, or
 				// anything else: it borrows and returns pool slices and must leave every operand as it was)
